@@ -142,4 +142,10 @@ def run(ctx: Ctx):
     ne = 30 if ctx.thorough else 9
     ecases = [scen.gen(ctx.seed * 100000 + 1500 + k, scheme=["RK4", "RK2", "EF"][k % 3], rev=bool(k % 4 == 3), layout="sparse", kills=False,
                        land=False, speed=[0.25, 1.0][k % 2], continuous=False) for k in range(ne)]
+    # dense layout with a particle that leaves at once: dead, inactive particles stay in front of the living ones
+    for k in range(4 if not ctx.thorough else 12):
+        sc = scen.gen(ctx.seed * 100000 + 1700 + k, layout="dense", kills=False, land=False, speed=2.0, continuous=False,
+                      scheme=["RK4", "RK2", "EF"][k % 3], rev=False, subgrid="none")
+        sc["rows"] = [dict(sc["rows"][0], step=0, mult=1, X=float(sc["imax"] - 2.25), Y=float(sc["jmax"] - 2.25), Z=1.0)] + sc["rows"]
+        ecases.append(sc)
     scen.e2e_stream(ctx, "whole-run", ecases, "Ladim.C01.advect_EF/RK2/RK4 with the velocity of Ladim.Simulation.velocity_seen at the stage times")
